@@ -225,7 +225,7 @@ func runC04own(c *core.Ctx) {
 			if !ok || !core.CallsTo(setOnePC)(ci.Common()) {
 				return false
 			}
-			cst, ok := argOf(ci, 0).(*ssa.Const)
+			cst, ok := asConst(argOf(ci, 0))
 			return ok && cst.Value != nil && cst.Value.String() == "false"
 		}
 		pCount := core.PCmp(tokGTR, func(v ssa.Value) bool { _, ok := v.(*ssa.Parameter); return ok }, core.IsIntConst(1))
@@ -247,7 +247,7 @@ func runC04own(c *core.Ctx) {
 		}
 		// setOnePC(true) only in execute
 		for _, cs := range p.CallersOf(setOnePC) {
-			cst, ok := argOf(cs.Instr, 0).(*ssa.Const)
+			cst, ok := asConst(argOf(cs.Instr, 0))
 			if ok && cst.Value != nil && cst.Value.String() == "false" {
 				continue
 			}
